@@ -176,6 +176,16 @@ func distPointToSegment(p, segStart, segEnd Point) float64 {
 	v := pointSubtract(segEnd, segStart)
 	w := pointSubtract(p, segStart)
 
+	// The dot products below overflow (or underflow to zero) for coordinate
+	// differences beyond about 1e154 (below 1e-154). In that case everything is
+	// first scaled by a power of two, which is exact.
+	if m := math.Max(math.Max(math.Abs(v.X), math.Abs(v.Y)), math.Max(math.Abs(w.X), math.Abs(w.Y))); m > 1e150 || (m > 0 && m < 1e-150) {
+		if _, e := math.Frexp(m); !math.IsInf(m, 0) {
+			scale := func(q Point) Point { return Point{X: math.Ldexp(q.X, -e), Y: math.Ldexp(q.Y, -e)} }
+			return math.Ldexp(distPointToSegment(scale(p), scale(segStart), scale(segEnd)), e)
+		}
+	}
+
 	c1 := dot(w, v)
 	if c1 <= 0. {
 		return d(p, segStart)
